@@ -170,7 +170,7 @@ _hist("C13", [
 
 PROPS["C10"] = {
     "level": "fault_enumeration",
-    "technique": "rapid-generated cache contents with a save/reload round trip over every public getter; fault injection into Save with strace (SIGKILL or errno at the k-th openat/write/close/renameat/newfstatat touching the cache files, RLIMIT_FSIZE short writes) checked against previous/new snapshot; generated file types and modes for the refusal rule",
+    "technique": "rapid-generated cache contents with a save/reload round trip over every public getter; fault injection into Save with strace (SIGKILL or errno at the k-th openat/write/close/renameat/newfstatat touching the cache files, RLIMIT_FSIZE short writes) checked against previous/new snapshot, with an in-process retry of the failed save whose success must be what a restart loads; generated file types and modes for the refusal rule",
     "rule": "round trip: 0-4 pods x 0-6 containers with optional sub-messages present/absent, labels, annotations incl. affinities, mounts, devices, hugepage limits, unified, followed by Set*/tag/state/resource-update mutations and policy entries of 9 types; non-trivial = >=1 container and >=1 mutation or policy entry. "
             "crash: a helper process loads the directory, applies a change and saves under an injected fault (syscall x action x k, or a file size limit b); non-trivial = the helper did not finish cleanly (the fault hit) and the old and new snapshots differ. "
             "refusal: state dir / cache file / containers dir of kind absent|file|dir|symlink|fifo with 16 modes; non-trivial = the state dir exists. distinct = hash of the case",
@@ -262,7 +262,7 @@ _hist("C15", [
     {"name": "balloons-concurrent", "pkg": RESMGR, "race": True, "run": "^TestVerifC15Balloons$", "replay_run": "^TestVerifC15BalloonsReplay$", "q": 60, "t": 8000, "per_proc": 250},
     {"name": "pod-resources", "pkg": "./pkg/resmgr/cache", "race": True, "run": "^TestVerifC15Fetch$", "replay_run": "^TestVerifC15FetchReplay$", "q": 1500, "t": 240000},
   ],
-  "rapid-generated histories with concurrent phases: 2-5 lifecycle lanes (each walks its own new pod through a generated prefix of run/create/start/update/stop/remove/stop-pod/remove-pod), update lanes on distinct existing containers, a configuration update lane and (in phases without lifecycle lanes) a Synchronize, all released at once from separate goroutines with generated scheduler yields; binary built with the Go race detector whose reports are read back after every phase; oracles = no race report, completion (deadlock watchdog), cache membership equals the runtime's, every cached decision was delivered in some reply of the phase, and all invariant libraries of C01-C05/C09 after the phase and after every later sequential request",
+  "rapid-generated histories with concurrent phases: 2-5 lifecycle lanes (each walks its own new pod through a generated prefix of run/create/start/update/stop/remove/stop-pod/remove-pod), update lanes on distinct existing containers, a configuration update lane and (in phases without lifecycle lanes) a Synchronize, all released at once from separate goroutines with generated scheduler yields; binary built with the Go race detector whose reports are read back after every phase; oracles = no race report, completion (deadlock watchdog), no unsolicited update sent from inside a sequentially delivered request or with the resource manager lock held (model of the runtime-side NRI adaptation lock), cache membership equals the runtime's, every cached decision was delivered in some reply of the phase, and all invariant libraries of C01-C05/C09 after the phase and after every later sequential request",
   "non-trivial = a phase ran >= 3 lanes and >= 6 requests concurrently",
   ["the Go scheduler, not the harness, picks the interleaving; the race detector judges happens-before rather than the observed order, so unsynchronised access pairs are reported whenever both accesses occur in a phase", "a phase that does not finish within 180 s with a goroutine blocked on a lock or channel counts as a deadlock"],
   floor_q=5, floor_t=100)
